@@ -88,6 +88,7 @@ theorem stopMeasure_step {s t : State} (I : Inv s) (P : PInv s) (hs : inStop s.o
   | start tk todo ho => rcases hs with ⟨x, h⟩ | ⟨x, y, h⟩ | ⟨x, h⟩ <;> (rw [ho] at h; cases h)
   | spawnYes todo ho hok => rcases hs with ⟨x, h⟩ | ⟨x, y, h⟩ | ⟨x, h⟩ <;> (rw [ho] at h; cases h)
   | spawnNo todo ho hok => rcases hs with ⟨x, h⟩ | ⟨x, y, h⟩ | ⟨x, h⟩ <;> (rw [ho] at h; cases h)
+  | spawnFail todo ho hok => rcases hs with ⟨x, h⟩ | ⟨x, y, h⟩ | ⟨x, h⟩ <;> (rw [ho] at h; cases h)
   | notifyHit todo w wk ho hw hp => rcases hs with ⟨x, h⟩ | ⟨x, y, h⟩ | ⟨x, h⟩ <;> (rw [ho] at h; cases h)
   | notifyMiss todo ho hn => rcases hs with ⟨x, h⟩ | ⟨x, y, h⟩ | ⟨x, h⟩ <;> (rw [ho] at h; cases h)
   | clear todo ho => rcases hs with ⟨x, h⟩ | ⟨x, y, h⟩ | ⟨x, h⟩ <;> (rw [ho] at h; cases h)
@@ -179,6 +180,7 @@ theorem inStop_step {s t : State} (hs : inStop s.owner) (h : Step s t) :
   | start tk todo ho => rcases hs with ⟨x, h⟩ | ⟨x, y, h⟩ | ⟨x, h⟩ <;> (rw [ho] at h; cases h)
   | spawnYes todo ho hok => rcases hs with ⟨x, h⟩ | ⟨x, y, h⟩ | ⟨x, h⟩ <;> (rw [ho] at h; cases h)
   | spawnNo todo ho hok => rcases hs with ⟨x, h⟩ | ⟨x, y, h⟩ | ⟨x, h⟩ <;> (rw [ho] at h; cases h)
+  | spawnFail todo ho hok => rcases hs with ⟨x, h⟩ | ⟨x, y, h⟩ | ⟨x, h⟩ <;> (rw [ho] at h; cases h)
   | notifyHit todo w wk ho hw hp => rcases hs with ⟨x, h⟩ | ⟨x, y, h⟩ | ⟨x, h⟩ <;> (rw [ho] at h; cases h)
   | notifyMiss todo ho hn => rcases hs with ⟨x, h⟩ | ⟨x, y, h⟩ | ⟨x, h⟩ <;> (rw [ho] at h; cases h)
   | clear todo ho => rcases hs with ⟨x, h⟩ | ⟨x, y, h⟩ | ⟨x, h⟩ <;> (rw [ho] at h; cases h)
